@@ -28,7 +28,10 @@ PLAN = {p: {"quick": FLOW_QUICK, "thorough": FLOW_THOROUGH} for p in FLOW_PROPS}
 TIME_QUICK = [("Timers.tla", "MC_time_%d.cfg" % k, 2, "3g", 600) for k in (0, 1000, 2000, 3000, 5000, 10000, 11000, 60000)]
 TIME_THOROUGH = TIME_QUICK + [("Timers.tla", "MC_time_%d.cfg" % k, 4, "6g", 1800) for k in (6000, 9000)]
 # filled in by the other specification modules as they are added
-EXTRA = {"C10": {"quick": TIME_QUICK, "thorough": TIME_THOROUGH}}
+READER = [("MC_reader.tla", "MC_reader.cfg", 4, "3g", 600)]
+EXTRA = {"C10": {"quick": TIME_QUICK, "thorough": TIME_THOROUGH},
+         "C15": {"quick": READER, "thorough": READER}, "C14": {"quick": READER, "thorough": READER},
+         "C08": {"quick": READER, "thorough": READER}, "C12": {"quick": READER, "thorough": READER}}
 
 
 def spec_hash(files):
